@@ -297,15 +297,16 @@ void vf_harness(void) {
   double t = (double)day * 86400.0 + (double)sec;
   @@tail@@
   __CPROVER_assert(date.weekDay == (((day + 4) % 7) + 7) % 7, "weekday of the day containing t, for every day of years 0001..9999 (1970-01-01 was a Thursday)");
-#ifdef HMS
-  __CPROVER_assert(date.hours == sec / 3600 && date.minutes == (sec / 60) % 60 && date.seconds == sec % 60, "hours/minutes/seconds are those of the second within the day");
-#endif
   VF_CANARY();
 }
 ''',
-    entry=None, floor=1, expect=['assertion'], timeout=1500, tier='thorough',
-    variants={'WD': ['-DDAY_LO=SPEC_DAY_MIN', '-DDAY_HI=SPEC_DAY_MAX']},
-    desc='time-of-day/weekday tail of Date::calc in floating point (t/86400, floor, truncation as written) for every day of years 0001..9999 and every integer second',
+    entry=None, floor=1, expect=['assertion'], timeout=3000,
+    replay=replay.from_trace('C19/driver.cpp', ['day', 'sec'], lambda v: ['instant', v['day'], v['sec']]),
+    variants={'d400': ['-DDAY_LO=-400', '-DDAY_HI=400'], 'NEG': ['-DDAY_LO=SPEC_DAY_MIN', '-DDAY_HI=0'], 'POS': ['-DDAY_LO=0', '-DDAY_HI=SPEC_DAY_MAX']},
+    variant_kind={'d400': ('bounded', 'days -400..400 around 1970-01-01 (both signs of t), every integer second')},
+    desc='weekday computation at the end of Date::calc in floating point as written (bias, t/86400, floor/truncation, % 7 fix-up), every integer second of the day; quick: days -400..400; thorough: every day of years 0001..9999',
+    assumes=['hours/minutes/seconds extraction (fract arithmetic) is executed but NOT decided: the same harness with an h/m/s assertion did not finish in 1500 s even for 800 days'],
     functions=['Date::calc (time of day, weekDay)'],
 )
+calc_tail.thorough_variants = ['NEG', 'POS']   # together: every day of years 0001..9999 (about 20 min each)
 UNITS += [calc_tail]
